@@ -407,10 +407,27 @@ func c11Shared(c *Ctx) {
 	}
 	// by path exploration: what the object handed out holds, nested settings included (a setting may live in a struct
 	// the sampler holds by value; copying that struct whole carries it)
+	var settingsWith func(fn *ssa.Function, noOpts bool) (map[string]string, bool)
 	settings := func(fn *ssa.Function) (map[string]string, bool) {
+		got, ok := settingsWith(fn, false)
+		if !ok && fn.Signature.Variadic() {
+			// options collected into a settings object first: on the paths that handed that object to an option (not
+			// explored) nothing is known about it any more. What the constructor stores by default is what it stores when
+			// no option is given
+			return settingsWith(fn, true)
+		}
+		return got, ok
+	}
+	settingsWith = func(fn *ssa.Function, noOpts bool) (map[string]string, bool) {
 		var got map[string]string
 		agree := true
 		seqs, trunc := ConcPaths(fn, ConcCfg{
+			Unroll: noOpts,
+			Init: func(st *ConcState) {
+				if noOpts && len(fn.Params) > 0 {
+					st.SetNil(fn.Params[len(fn.Params)-1], true) // no options: the variadic slice is nil
+				}
+			},
 			Event: func(in ssa.Instruction, st *ConcState) string {
 				r, ok := in.(*ssa.Return)
 				if !ok || len(r.Results) != 1 {
